@@ -314,6 +314,10 @@ def stream_setup(b):
                      'fileno': MethodModel('fileno', lambda i, s, a, k: iter([(s, sym.fresh(INT, 'fd'))]))}
 
     def open_(interp, st, args, kwargs):
+        # the file was listed earlier: by now it may be gone (or unreadable)
+        gone = st.copy()
+        gone.emit('open_failed', path=args[0])
+        yield gone, Raised(Exc('FileNotFoundError'))
         st.ghost['consumed'] = SV(BYTES, z3.StringVal(''))
         f = sym.fresh(FILEOBJ, 'fobj')
         st.emit('open', path=args[0])
@@ -407,6 +411,10 @@ def stream_post(prop):
         n_files = 0
         for p in res.body_paths('For#1'):
             st = p.st
+            if p.kind == 'raise' and p.events('open_failed') and not p.events('open'):
+                # a listed file that cannot be opened: the failure reaches the caller (the snapshot fails as a whole)
+                res.oblige(p, f'{prop}.stream.unopenable_file_fails_the_snapshot', z3.BoolVal(p.value.cls == 'FileNotFoundError'))
+                continue
             if p.kind not in ('normal', 'continue'):
                 res.oblige(p, f'{prop}.stream.iteration_total[{p.kind}]', z3.BoolVal(False))
                 continue
@@ -432,6 +440,8 @@ def stream_post(prop):
                 [e.kind for e in p.st.events if e.kind in ('read_eof', 'read_metadata')][-2:] == ['read_eof', 'read_metadata']))
         res.oblige([], f'{prop}.stream.file_iterations_checked', z3.BoolVal(n_files >= 1))
         for p in res.paths:
+            if p.kind == 'raise' and p.events('open_failed') and p.value.cls == 'FileNotFoundError':
+                continue
             if p.kind not in ('normal', 'return'):
                 res.oblige(p, f'{prop}.stream.total[{p.kind}]', z3.BoolVal(False))
     return post
@@ -1037,6 +1047,15 @@ def run_setup(b):
     b.bind('bytes_tracker', CM('tqdm'))
 
     def gather(interp, st, args, kwargs):
+        from vf.interp import StarArg
+        from vf.models import MapVal
+        # gather(*map(f, items)): f is applied to every item; when f is one of the repository's deleting operations that is a deletion
+        for a in args:
+            inner = a.v if isinstance(a, StarArg) else a
+            if isinstance(inner, MapVal) and isinstance(inner.f, Model) and inner.f.name in ('_delete', '_delete_threadsafe'):
+                st.emit('delete_during_snapshot', location=None, mapped=True)
+                yield st, st.new_py('list', [None])
+                return
         bad = st.copy()
         bad.emit('gather_failed')
         if kwargs.get('return_exceptions', False) is False:
@@ -1079,6 +1098,13 @@ def run_setup(b):
     b.bind('asyncio', asyncio_)
     b.bind('abort', Obj('abort', set=Model('abort.set', lambda i, s, a, k: (s.emit('abort_set'), iter([(s, None)]))[1])))
     b.bind('chunk_producer', producer)
+
+    def delete(interp, st, args, kwargs):
+        st.emit('delete_during_snapshot', location=args[0] if args else None)
+        yield st, None
+
+    me._attrs['_delete'] = Model('_delete', delete)
+    me._attrs['_delete_threadsafe'] = Model('_delete_threadsafe', delete)
     ex = Obj('chunk_producer_executor', shutdown=Model('shutdown', wait))
     ex._lenient = True
     b.bind('chunk_producer_executor', ex)
@@ -1106,6 +1132,10 @@ def run_post(prop):
                 for e in ups:
                     res.oblige(p.pc_at(e), f'{prop}.run.snapshot_upload_after_worker_barrier', z3.BoolVal(
                         kinds.index('gather_ok') < kinds.index('upload') and len(ups) == 1))
+        for p in res.paths:
+            # a snapshot only ADDS objects - also when it fails: whatever it found or put under a chunk name may be referenced by other
+            # snapshots (of this user or of a shared-key user); taking objects back is the job of clean, which looks at all references
+            res.oblige(p, f'{prop}.run.snapshot_never_deletes_objects', z3.BoolVal(not p.events('delete_during_snapshot')))
         res.oblige([], f'{prop}.run.paths_checked', z3.BoolVal(n_fail >= 1 and n_ok >= 1))
     return post
 
